@@ -31,6 +31,61 @@ theorem C15_bsearch_contract (n : Nat) (cmp : Nat → Ordering) (hm : Mono n cmp
   · rintro ⟨i, h⟩; exact ⟨i, bsearchBy_found n cmp i h⟩
   · rintro ⟨e, he, hc⟩; exact bsearchBy_complete n cmp hm e he hc
 
+/-- The textbook search on `[0, n)` satisfies the same contract, hence on a monotone comparator the two
+agree on hit-or-miss and on the insertion point of a miss, and on the hit itself when at most one element
+compares `Equal` (always the case for `index_of` on a sorted table). -/
+theorem C15_bsearch_eq_reference (n : Nat) (cmp : Nat → Ordering) (hm : Mono n cmp) :
+    ((∃ i, bsearchBy n cmp = .found i) ↔ ∃ i, Spec.bsearchRef cmp 0 n = .found i) ∧
+    (∀ k, bsearchBy n cmp = .notFound k ↔ Spec.bsearchRef cmp 0 n = .notFound k) ∧
+    ((∀ i j, i < n → j < n → cmp i = .eq → cmp j = .eq → i = j) → bsearchBy n cmp = Spec.bsearchRef cmp 0 n) := by
+  obtain ⟨r1, r2⟩ := bsearchRef_spec cmp n hm n 0 n rfl (Nat.zero_le _) (Nat.le_refl _) (fun i hi => by omega) (fun i h1 h2 => by omega)
+  obtain ⟨c1, c2, c3⟩ := C15_bsearch_contract n cmp hm
+  -- two partition points coincide
+  have part : ∀ k k', k ≤ n → k' ≤ n → (∀ i, i < k → cmp i = .lt) → (∀ i, k ≤ i → i < n → cmp i = .gt) →
+      (∀ i, i < k' → cmp i = .lt) → (∀ i, k' ≤ i → i < n → cmp i = .gt) → k = k' := by
+    intro k k' hk hk' a1 a2 b1 b2
+    rcases Nat.lt_trichotomy k k' with h | h | h
+    · have x := a2 k (Nat.le_refl _) (by omega); have y := b1 k h; rw [x] at y; cases y
+    · exact h
+    · have x := b2 k' (Nat.le_refl _) (by omega); have y := a1 k' h; rw [x] at y; cases y
+  -- a hit excludes a miss, for either algorithm
+  have excl : ∀ e k, e < n → cmp e = .eq → (∀ i, i < k → cmp i = .lt) → (∀ i, k ≤ i → i < n → cmp i = .gt) → False := by
+    intro e k he hce a1 a2
+    by_cases hek : e < k
+    · have := a1 e hek; rw [hce] at this; cases this
+    · have := a2 e (by omega) he; rw [hce] at this; cases this
+  have hitS : ∀ {i}, bsearchBy n cmp = .found i → ∃ j, Spec.bsearchRef cmp 0 n = .found j := by
+    intro i h
+    obtain ⟨h1, h2⟩ := c2 i h
+    cases hr : Spec.bsearchRef cmp 0 n with
+    | found j => exact ⟨j, rfl⟩
+    | notFound k => obtain ⟨_, a1, a2⟩ := r2 k hr; exact absurd (excl i k h1 h2 a1 a2) id
+  have hitR : ∀ {i}, Spec.bsearchRef cmp 0 n = .found i → ∃ j, bsearchBy n cmp = .found j := by
+    intro i h
+    obtain ⟨h1, h2⟩ := r1 i h
+    exact c1.2 ⟨i, h1, h2⟩
+  have missS : ∀ {k}, bsearchBy n cmp = .notFound k → Spec.bsearchRef cmp 0 n = .notFound k := by
+    intro k h
+    obtain ⟨a0, a1, a2⟩ := c3 k h
+    cases hr : Spec.bsearchRef cmp 0 n with
+    | found j => obtain ⟨h1, h2⟩ := r1 j hr; exact absurd (excl j k h1 h2 a1 a2) id
+    | notFound k' => obtain ⟨b0, b1, b2⟩ := r2 k' hr; rw [part k k' a0 b0 a1 a2 b1 b2]
+  have missR : ∀ {k}, Spec.bsearchRef cmp 0 n = .notFound k → bsearchBy n cmp = .notFound k := by
+    intro k h
+    obtain ⟨a0, a1, a2⟩ := r2 k h
+    cases hr : bsearchBy n cmp with
+    | found j => obtain ⟨h1, h2⟩ := c2 j hr; exact absurd (excl j k h1 h2 a1 a2) id
+    | notFound k' => obtain ⟨b0, b1, b2⟩ := c3 k' hr; rw [part k' k b0 a0 b1 b2 a1 a2]
+  refine ⟨⟨fun ⟨i, h⟩ => hitS h, fun ⟨i, h⟩ => hitR h⟩, fun k => ⟨missS, missR⟩, ?_⟩
+  intro huniq
+  cases hr : bsearchBy n cmp with
+  | found i =>
+    obtain ⟨j, hj⟩ := hitS hr
+    obtain ⟨h1, h2⟩ := c2 i hr
+    obtain ⟨g1, g2⟩ := r1 j hj
+    rw [hj, huniq i j h1 g1 h2 g2]
+  | notFound k => rw [missS hr]
+
 /-! ## exception directory -/
 
 /-- The directory is `Size / 12` RUNTIME_FUNCTION records at the directory's RVA; a `Size` that is not a
@@ -207,6 +262,14 @@ theorem C15_index_of_eq_linear (b : Bytes) (t : Ref) (hs : checkSorted b t = tru
     cases hl : Spec.linearLookup b t pc with
     | none => rfl
     | some j => rw [fwd j hl] at hk; cases hk
+
+/-- On sorted tables `index_of` is the textbook binary search with the closure of `index_of`. -/
+theorem C15_index_of_eq_reference (b : Bytes) (t : Ref) (hs : checkSorted b t = true) (pc : Nat) :
+    indexOf b t pc = Spec.bsearchRef (rfCmp b t pc) 0 (excCount t) := by
+  have hs' := (checkSorted_iff b t).1 hs
+  apply (C15_bsearch_eq_reference _ _ (rfCmp_mono hs' pc)).2.2
+  intro i j hi hj ci cj
+  exact covers_unique hs' hi hj ((rfCmp_eq_iff b t pc i).1 ci) ((rfCmp_eq_iff b t pc j).1 cj)
 
 /-- The sortedness hypothesis is needed: on an unsorted table a covered address can be missed
 (records `[10,20)`, `[0,5)`; `pc = 12` lies in record 0, the search answers `Err(2)`). -/
@@ -577,25 +640,42 @@ theorem C15_load_config_fields (v : View) (t : Ref) (r : Ref) :
 
 /-- For a file view (buffer at a dword-aligned address, as every constructed view is) the certificate
 table is decoded iff the directory is well formed: non-zero 8-aligned FILE OFFSET, 8-aligned size ≥ 8,
-inside the file.  The result is the directory's bytes; the type is the word at +6, the certificate data
-everything after the 8-byte header.  (`dwLength` is not consulted: see the report.) -/
+inside the file.  The type is the word at +6 of the WIN_CERTIFICATE header; for a directory holding one
+certificate of the directory's size (`dwLength = Size`) the data is exactly the stored certificate bytes. -/
 theorem C15_security_file (v : View) (hb : v.img.base % 4 = 0) (r : Ref) :
     (securityTryFrom v = .ok r ↔
       v.kind = .file ∧ ∃ va size, v.dataDir 4 = some (va, size) ∧ Spec.CertWellFormed v.b.size va size ∧
         r = ⟨va, size, 1⟩) ∧
     (securityTryFrom v = .ok r →
-      secCertType v r = .ok (Spec.certType v.b r.off) ∧ secCertData v r = .ok (Spec.certBytes r.off r.len) ∧
-      RefOK v.img (Spec.certBytes r.off r.len) ∧ secImage v r = .ok ⟨r.off, 8, 4⟩ ∧ RefOK v.img ⟨r.off, 8, 4⟩) := by
+      secImage v r = .ok ⟨r.off, 8, 4⟩ ∧ RefOK v.img ⟨r.off, 8, 4⟩ ∧
+      secCertType v r = .ok (Spec.certType v.b r.off) ∧
+      (Spec.SingleCert v.b r.off r.len →
+        secCertData v r = .ok (Spec.certBytes v.b r.off) ∧ RefOK v.img (Spec.certBytes v.b r.off))) := by
   refine ⟨securityTryFrom_ok_iff v hb r, ?_⟩
   intro h
   obtain ⟨_, va, size, hd, ⟨w1, w2, w3, w4, w5⟩, rfl⟩ := (securityTryFrom_ok_iff v hb r).1 h
   have w5' : va + size ≤ v.img.bytes.size := w5
   have hal : (v.img.base + va) % 4 = 0 := by omega
-  unfold secCertType secCertData secImage Spec.certType Spec.certBytes
+  unfold secCertType secCertData secImage Spec.certType Spec.certBytes Spec.SingleCert
   simp only
   rw [rawRef_eq_ok (by omega) hal, if_neg (by omega), rawRef_eq_ok (by omega) (Nat.mod_one _)]
   simp only [Out.bind_ok]
-  exact ⟨trivial, trivial, ⟨by simp only; omega, Nat.mod_one _⟩, trivial, ⟨by simp only; omega, hal⟩⟩
+  refine ⟨trivial, ⟨by simp only; omega, hal⟩, trivial, ?_⟩
+  intro hsingle
+  rw [hsingle]
+  exact ⟨rfl, ⟨by simp only; omega, Nat.mod_one _⟩⟩
+
+/-- Without `dwLength = Size` only this holds: `certificate_data` is everything after the first 8-byte
+header up to the END OF THE DIRECTORY, whatever `dwLength` says (padding and any further certificates
+included, a `dwLength` larger than the directory ignored). -/
+theorem C15_security_data_partial (v : View) (hb : v.img.base % 4 = 0) (r : Ref) (h : securityTryFrom v = .ok r) :
+    secCertData v r = .ok ⟨r.off + 8, r.len - 8, 1⟩ ∧ RefOK v.img ⟨r.off + 8, r.len - 8, 1⟩ := by
+  obtain ⟨_, va, size, hd, ⟨w1, w2, w3, w4, w5⟩, rfl⟩ := (securityTryFrom_ok_iff v hb r).1 h
+  have w5' : va + size ≤ v.img.bytes.size := w5
+  unfold secCertData
+  simp only
+  rw [if_neg (by omega), rawRef_eq_ok (by omega) (Nat.mod_one _)]
+  exact ⟨rfl, ⟨by simp only; omega, Nat.mod_one _⟩⟩
 
 /-- Mapped views have no certificate table: `Unmapped`, whatever the directory says. -/
 theorem C15_security_view (v : View) (hk : v.kind = .view) : securityTryFrom v = .err .unmapped := by
@@ -779,7 +859,17 @@ example :
     securityTryFrom demoFile = .ok ⟨600, 16, 1⟩ ∧
     Spec.CertWellFormed demoBytes.size 600 16 ∧
     secCertType demoFile ⟨600, 16, 1⟩ = .ok 2 ∧
+    Spec.SingleCert demoBytes 600 16 ∧
     secCertData demoFile ⟨600, 16, 1⟩ = .ok ⟨608, 8, 1⟩ := by
+  decide +kernel
+
+/-- The hypothesis `dwLength = Size` of `C15_security_file` is needed: for a stored certificate of 12 bytes
+(4 data bytes) padded to a 16-byte directory, `certificate_data` returns 8 bytes — the 4 stored bytes plus
+the padding (`C15_security_data_partial` is what holds in general). -/
+theorem C15_security_data_ignores_dwLength :
+    let v : View := ⟨⟨demoBytes.set! 600 12, 0⟩, .pe32, .file, 0x400000⟩
+    securityTryFrom v = .ok ⟨600, 16, 1⟩ ∧ Spec.certLength v.b 600 = 12 ∧
+    secCertData v ⟨600, 16, 1⟩ = .ok ⟨608, 8, 1⟩ ∧ Spec.certBytes v.b 600 = ⟨608, 4, 1⟩ := by
   decide +kernel
 
 end Pelite.Dirs
